@@ -21,7 +21,13 @@ def _split_numeric_and_symbolic(
         elif is_number(arg):
             nums.append(arg)
         else:
-            syms.append(collect_expression_and_dimension(arg))
+            sub_expr, sub_dim = collect_expression_and_dimension(arg)
+            # a sub-expression that reduces to a quantity is treated like any other quantity,
+            # e.g. its zero scale factor makes it compatible with any dimension
+            if isinstance(sub_expr, SymQuantity):
+                qtys.append(sub_expr)
+            else:
+                syms.append((sub_expr, sub_dim))
 
     return nums, qtys, syms
 
